@@ -244,12 +244,13 @@ func init() {
 		ID:    "C12",
 		Level: "exploration",
 		Rule: "cases: (1) the exhaustive list of single structural mutations - every field path of 25 base documents (one per kind x shape: Namespace, the nine workload expressions, NetworkPolicy, ANP, BANP, Service, Ingress, Route) x {drop, null, retype, empty, corner value (IPv6/garbage addresses, out-of-range numbers, unknown enum values, absent controller flag, 70 kB strings)}; (2) sampled multi-mutations (2-4 at once) of the same documents and of generated worlds, and single/double mutations of documents of the repository's own manifest directories, next to valid documents using the tool's own synthetic names and admin policies with the API's other peer kinds (networks, nodes) under every kind of port entry; (3) byte-level mutations (truncation, bit flips, BOM, CRLF, tabs, deep nesting, duplicated documents, blank kind/metadata); every mutated input is run through list, list --exposure, diff (both sides), the eval engine with queries, and - on a slice - the binary; " +
+			"(tail of the list) valid generated worlds of four families - a sealed cluster in which the exposure analysis has nothing to report, NetworkPolicy worlds with Service/Ingress/Route objects, admin-policy worlds, worlds of all nine workload expressions - analysed with and without exposure in all five list formats and diffed against a single-step edit in all four diff formats; " +
 			"oracle: the Go runtime's own checks observed at the boundary: a recovered panic, a dead worker process, a watchdog expiry or a crashing binary refute the property; errors are fine; " +
 			"non-trivial = the mutated input was still parsed far enough to reach the analysis (some entry point returned a result or an error other than a pure scan failure) and differs from the base; distinct = (document, path, operation) / mutation hash",
 		Assumptions: []string{"the worker's recover() and the driver's journal see every crash (a dying worker is attributed to the journalled case)", "watchdog: 180 s per case"},
 		NumCases: func(tier string, _ int64) int {
 			n := len(c12Enumerate())
-			return tierN(tier, n+600, n+60000)
+			return tierN(tier, n+600, n+60000) + tierN(tier, 240, 12000)
 		},
 		Run:               runC12,
 		RaceSliceCases:    6000,
@@ -286,6 +287,10 @@ func crashSite(stack string) string {
 func runC12(c *run.Ctx) {
 	r := c.Res
 	enum := c12Enumerate()
+	if base := len(enum) + tierN(c.Tier, 600, 60000); c.Idx >= base { // tail of the list: VALID inputs of unusual shapes through every format
+		runC12Valid(c, c.Idx-base)
+		return
+	}
 	g := c.R("mut")
 	base := c12BaseDocs()
 	docs := append([]world.Doc(nil), base...)
@@ -631,4 +636,66 @@ func c12RunEntryPoints(c *run.Ctx, dir, dirX, dirB, desc string, rawFile []byte,
 		r.Effective, r.NonTrivial = reached, reached
 	}
 	return reached
+}
+
+// runC12Valid: totality is claimed for every input, and the inputs most often met are valid ones. Worlds of four families go through
+// every output format of list (with and without exposure) and diff; nothing may panic.
+func runC12Valid(c *run.Ctx, k int) {
+	r := c.Res
+	g := c.R("valid")
+	cfg := world.DefaultCfg()
+	cfg.NamedEgressIP = 0
+	cfg.MaxWorkloads = 5
+	var w *world.World
+	fam := []string{"sealed", "ingress", "admin", "allkinds"}[k%4]
+	switch fam {
+	case "sealed":
+		w = world.GenSealedWorld(g)
+	case "ingress":
+		w = world.GenNPWorld(g, cfg)
+		world.GenIngressResources(g, w)
+	case "admin":
+		w = world.GenPrecedenceWorld(g, cfg)
+	default:
+		cfg.Kinds = world.AllWorkloadKinds
+		w = world.GenNPWorld(g, cfg)
+	}
+	r.Hash = "valid/" + w.Hash()
+	r.Ev("valid_worlds_"+fam, 1)
+	dir, dirB := c.Dir("input"), c.Dir("edited")
+	wb, _ := world.Mutate(g, w, cfg)
+	if wb == nil {
+		wb = w
+	}
+	if w.Write(dir, c.R("layout")) != nil || wb.Write(dirB, c.R("layoutB")) != nil {
+		r.Discarded = "emit"
+		return
+	}
+	reached := false
+	for _, f := range []string{"txt", "json", "csv", "md", "dot"} {
+		for _, exp := range []bool{false, true} {
+			l := observe.List(dir, observe.ListOpts{Format: f, Exposure: exp})
+			r.Ev("entry_point_runs", 1)
+			if l.Panic != "" {
+				r.Violate("c12.panic", "c12.panic:"+crashSite(l.Panic)+":panic", "a result and/or a reported error", "panic in list: "+firstLines(l.Panic, 14), fmt.Sprintf("valid %s world, format %s, exposure %v", fam, f, exp))
+				return
+			}
+			if !l.HasErr {
+				r.Ev("results_returned", 1)
+				reached = true
+			} else {
+				r.Ev("errors_returned", 1)
+			}
+		}
+		if f == "json" {
+			continue
+		}
+		d := observe.Diff(dir, dirB, observe.DiffOpts{Format: f})
+		r.Ev("entry_point_runs", 1)
+		if d.Panic != "" {
+			r.Violate("c12.panic", "c12.panic:"+crashSite(d.Panic)+":panic", "a result and/or a reported error", "panic in diff: "+firstLines(d.Panic, 14), fmt.Sprintf("valid %s world, format %s", fam, f))
+			return
+		}
+	}
+	r.Effective, r.NonTrivial = reached, reached
 }
